@@ -90,6 +90,16 @@ func ciRun(id int, sc *ciScen) {
 			ev["table"], ev["groups"] = []vmap{}, [][]int{}
 		}
 		vEmit(ev)
+		// history: the Start got past PrepareChannels and failed later (or the run ended by itself); Start is tried again
+		// on the same object, without a Stop in between
+		err = ls.PrepareChannels()
+		ev2 := vmap{"ev": "Ident", "scen": id, "kind": sc.Kind, "origin": sc.Origin + "/again", "accepted": err == nil, "panic": false, "overlap": false, "cfg": ev["cfg"]}
+		if err == nil {
+			ev2["table"], ev2["groups"] = ciTable(&ls.AnySource, truth), ciGroups(&ls.AnySource)
+		} else {
+			ev2["table"], ev2["groups"] = []vmap{}, [][]int{}
+		}
+		vEmit(ev2)
 	case "abaco":
 		as := new(AbacoSource)
 		as.name = "Abaco"
@@ -135,6 +145,16 @@ func ciRun(id int, sc *ciScen) {
 			ev["table"], ev["groups"] = []vmap{}, [][]int{}
 		}
 		vEmit(ev)
+		if err == nil {
+			err = as.PrepareChannels()
+			ev2 := vmap{"ev": "Ident", "scen": id, "kind": sc.Kind, "origin": sc.Origin + "/again", "accepted": err == nil, "panic": false, "overlap": overlap, "cfg": ev["cfg"]}
+			if err == nil {
+				ev2["table"], ev2["groups"] = ciTable(&as.AnySource, truth), ciGroups(&as.AnySource)
+			} else {
+				ev2["table"], ev2["groups"] = []vmap{}, [][]int{}
+			}
+			vEmit(ev2)
+		}
 	default:
 		var ds *AnySource
 		var err error
@@ -152,6 +172,15 @@ func ciRun(id int, sc *ciScen) {
 			err = ds.PrepareChannels()
 		}
 		vEmit(vmap{"ev": "Ident", "scen": id, "kind": sc.Kind, "origin": sc.Origin, "accepted": err == nil, "panic": false, "overlap": false,
+			"cfg": vmap{"nchan": sc.Nchan}, "table": ciTable(ds, truth), "groups": ciGroups(ds)})
+		if sc.Kind == "roach" {
+			rs := &RoachSource{AnySource: *ds}
+			err = rs.PrepareChannels()
+			ds = &rs.AnySource
+		} else {
+			err = ds.PrepareChannels()
+		}
+		vEmit(vmap{"ev": "Ident", "scen": id, "kind": sc.Kind, "origin": sc.Origin + "/again", "accepted": err == nil, "panic": false, "overlap": false,
 			"cfg": vmap{"nchan": sc.Nchan}, "table": ciTable(ds, truth), "groups": ciGroups(ds)})
 	}
 }
